@@ -115,7 +115,7 @@ package leader
 //@ objinv kvElection C11.monitor_has_handler: this.connectionMonitor != nil ==> (this.disconnectHandler != nil && this.disconnectHandler.election == this)
 //@ objinv disconnectHandler C11.handler_has_election: this.election != nil
 
-//@ lockinv kvElection.mu C18.claim_iff_state:        isLeader == (state == "LEADER")
+//@ lockinv kvElection.mu C18+C02+C01.claim_iff_state:        isLeader == (state == "LEADER")
 //@ lockinv kvElection.mu C02.claim_implies_running:  isLeader ==> (ctx != nil && !stopped)
 //@ lockinv kvElection.mu C18+C02+C09.stopped_implies_state:  stopped ==> state == "STOPPED"
 //@ lockinv kvElection.mu C09+C19.cancel_set_with_ctx:    ctx != nil ==> cancel != nil
@@ -137,6 +137,12 @@ package leader
 //@   on call updateIsLeaderMetric set $gaugeFresh = true
 //@   on call kvElection.cancel assert C19+C09.election_ctx_cancelled_only_by_stop_paths: caller.mayCancelElection
 //@   on call kvElection.termCancel assert C19.term_ctx_cancelled_only_when_claim_cleared: caller.mayCancelTerm
+//@   ghost $tokenDrawn Bool = false
+//@   ghost $lastDrawn Int = 0
+//@   on call uuid.String set $tokenDrawn = true
+//@   on call uuid.String as u set $lastDrawn = u.result
+//@   on call KeyValue.Create as c assert C05.token_drawn_for_this_attempt: $tokenDrawn && TokenOf(c.value) == $lastDrawn
+//@   on ret KeyValue.Create set $tokenDrawn = false
 //@   on call kvElection.onDemote assert C08+C09+C11+C13.callbacks_run_outside_the_mutex: nheld(kvElection.mu) == 0
 //@   on call kvElection.onPromote assert C08+C09+C13.callbacks_run_outside_the_mutex: nheld(kvElection.mu) == 0
 //@   on unlock kvElection.mu assert C18.gauge_follows_claim: $gaugeFresh
@@ -500,6 +506,9 @@ package leader
 //@   on store kvElection.token set tokStored = true
 //@   on store kvElection.revision as s assert C01.token_before_revision: tokStored && s.value == rev
 //@   on store kvElection.revision set e.revSet = true
+//@   ghost revStoredHere Bool = false
+//@   on store kvElection.revision set revStoredHere = true
+//@   on store kvElection.isLeader as s when s.value assert C07+C05+C02.claim_published_last: tokStored && revStoredHere
 //@   on call onPromote as c assert C05.promote_gets_published_token: c.arg1 == token
 //@   on load kvElection.ctx assert C19+C09.election_ctx_read_under_lock: held(e.mu) >= 1
 //@   on call onPromote as c assert C19.derived_from_election_ctx: origin(c.arg0, "ctx:derived") && origin(ctxof(c.arg0), "ctx:derived") && origin(ctxof(ctxof(c.arg0)), "field:kvElection.ctx")
@@ -700,6 +709,7 @@ package leader
 //@   on load kvElection.isLeader as l set sawLeader = l.value
 //@   on ret validateToken as r set vt0 = r.result0
 //@   on ret validateToken as r set vt1 = r.result1
+//@   on call validateToken as c assert C04.validation_bound_to_the_callers_context: c.ctx == ctx || (origin(c.ctx, "ctx:derived") && ctxof(c.ctx) == ctx)
 //@   ensures C04.not_leader_false: !sawLeader ==> !result0 && result1 == ErrNotLeader
 //@   ensures C04.true_needs_validation: result0 ==> sawLeader && calls(validateToken) == 1 && vt0 && vt1 == nil && result1 == nil
 //@   ensures C04.fail_safe: result1 != nil ==> !result0
